@@ -217,6 +217,84 @@ def feats(prog, q):
     return sorted(f)
 
 
+
+# ---- fixed probes: template features outside the TemplInst alphabet (reproducers reported by adversaries and their
+# nearest controls).  (id, header, [(query, expected C++ type)], finding class or None).  A probe whose header is
+# valid C++ must parse; each query must resolve to the expected type (g++ confirms the expectation first).
+PROBES = [
+    ("ellipsis", "template<class A> struct PrA { typedef int (*f1)(A, ...); typedef int (*f2)(A); };",
+     [("PrA<int>::f1", "int (*)(int, ...)"), ("PrA<char>::f2", "int (*)(char)")], None),
+    ("injected-default", "template<class A, class B = A *> struct PrB { typedef B second; typedef PrB self; };",
+     [("PrB<int>::self::second", "int *"), ("PrB<int, char>::self", "PrB<int, char>")], None),
+    ("dep-base-other-name", "template<class T> struct PrC { typedef T *bt; }; template<class U> struct PrD : PrC<U> { };",
+     [("PrD<short>::bt", "short *")], None),
+    ("alias-template", "template<class A, class B> struct PrE { typedef B second; }; template<class T> using PrV = PrE<T, T **>;",
+     [("PrV<char>::second", "char **"), ("PrV<int>", "PrE<int, int **>")], None),
+    ("same-simple-name-arguments", "namespace pa { struct K { typedef int t; }; } namespace pb { struct K { typedef char t; }; } "
+     "template<class A> struct PrF { typedef typename A::t at; typedef A *ap; };",
+     [("PrF<pa::K>::at", "int"), ("PrF<pb::K>::at", "char")], None),     # (-p shows pb::K as K: not asked here)
+    # explicit / partial specialisations are not selected, and a typedef of an explicit specialisation is rejected
+    ("explicit-specialisation-typedef", "template<class A> struct PrG { typedef A first; }; template<> struct PrG<bool> { typedef char first; }; "
+     "typedef PrG<bool> PrGb;", [("PrG<int>::first", "int")], "C06-templ-specialisation"),
+    ("explicit-specialisation-member", "template<class A> struct PrH { typedef A first; }; template<> struct PrH<long> { typedef char &first; };",
+     [("PrH<long>::first", "char &")], "C06-templ-specialisation"),
+    ("partial-specialisation-member", "template<class T, class U> struct PrI { typedef T first; }; template<class T> struct PrI<T, T> { typedef long first; };",
+     [("PrI<char, char>::first", "long")], "C06-templ-specialisation"),
+    ("specialisation-control", "template<class T, class U> struct PrJ { typedef T first; }; template<class T> struct PrJ<T, T> { typedef long first; };",
+     [("PrJ<char, int>::first", "char")], None),
+    # a template named through a dependent base that has the same template as injected class name
+    ("name-through-dependent-base", "template<class A> struct PrK { typedef PrK self; }; template<class T> struct PrL : PrK<T> { typedef PrK<T> b; };",
+     [("PrL<int>::b", "PrK<int>")], "C06-templ-name-through-dependent-base"),
+    ("name-through-dependent-base-control", "template<class A> struct PrM { typedef A self; }; template<class T> struct PrN : PrM<T *> { typedef PrM<T> b; };",
+     [("PrN<int>::b", "PrM<int>")], None),
+]
+
+
+def run_probes(ctx, work):
+    """returns the number of probe queries judged"""
+    n_done = 0
+    exact = ctx.notes.setdefault("finding_class_failed_of_members", {})
+    for pid, header, queries, cls in PROBES:
+        fn = "probe_%s.h" % pid.replace("-", "_")
+        open(os.path.join(work, fn), "w").write(header + "\n")
+        # the expectation itself is checked by g++
+        lines = ["#include <type_traits>", '#include "%s"' % fn] + [
+            "static_assert(std::is_same<%s, %s>::value, \"\");" % (q, e) for q, e in queries]
+        open(os.path.join(work, fn[:-2] + "_orig.cxx"), "w").write("\n".join(lines) + "\n")
+        bad, err = gxx_bad_lines(work, fn[:-2] + "_orig.cxx")
+        if bad:
+            raise MachineryError("template probe %s: expectation != g++: %s" % (pid, err[:800]))
+        rr = run.run_tool("parse_file", ["-p", fn], cwd=work, timeout=60, stdin="".join(q + "\n" for q, e in queries).encode())
+        failed = None
+        answers = []
+        if rr.rc != 0 or rr.timed_out or "rror" in rr.stderr:
+            failed = "parse_file rc=%s signal=%s timeout=%s: %s" % (rr.rc, rr.signal, rr.timed_out, rr.stderr.strip()[-200:])
+        else:
+            chunks = rr.stdout.split("Enter an expression or type name:\n")[1:]
+            for (q, e), ch in zip(queries, chunks):
+                m = re.search(r"^Type: (.*)$", ch, re.M)
+                answers.append(m.group(1).strip() if m else None)
+            lines = ["#include <type_traits>", '#include "%s"' % fn]
+            for (q, e), a in zip(queries, answers):
+                lines.append("static_assert(std::is_same<%s, %s>::value, \"\");" % (q, a if a else "void"))
+            open(os.path.join(work, fn[:-2] + "_printed.cxx"), "w").write("\n".join(lines) + "\n")
+            badl, err = gxx_bad_lines(work, fn[:-2] + "_printed.cxx")
+            wrong = [(queries[l - 3][0], answers[l - 3]) for l in sorted(badl) if 3 <= l < 3 + len(queries)]
+            if badl and not wrong:
+                raise MachineryError("template probe %s: comparison TU fails outside any query: %s" % (pid, err[:600]))
+            if wrong:
+                failed = "; ".join("%s is printed as `%s`" % w for w in wrong)
+        n_done += len(queries)
+        if cls:
+            m = exact.setdefault(cls, [0, 0])
+            m[1] += 1
+            m[0] += failed is not None
+        if failed:
+            ctx.violation("template probe %s: %s   [%s]" % (pid, failed, header), dict(probe=pid, header=header, queries=queries,
+                          observed=failed, stat_key="templ-probe " + pid), classes=[cls] if cls else [])
+    return n_done
+
+
 def templ_inst(ctx, work):
     cap_p, cap_q = (1500, 12) if ctx.tier == "quick" else (25000, 30)
     rng = random.Random(6)
@@ -432,6 +510,7 @@ def templ_inst(ctx, work):
         for (n, qi) in bad_cases:
             for c in templ_classes(n, byn[n][1], byn[n][2][qi][0]):
                 ctx.notes["finding_class_failed_of_members"][c][0] += 1
+    total += run_probes(ctx, work)
     ctx.notes["templ_programs"] = len(cases)
     ctx.notes["templ_queries"] = sum(len(c[2]) for c in cases)
     ctx.notes["templ_db_functions_absent"] = stats.get("db_missing", 0)
